@@ -145,7 +145,10 @@ class H:
             if hi is not None and lo is None:
                 a = hi - 3.0
             return SR(v, None, None, core.seeded_samples(name, core.SAMPLE_RNG.uniform(a, b, core.K_SAMPLES)))
-        return self._value(name, sampler)
+        v = self._value(name, sampler)
+        if (lo is not None and v < lo - 1e-9 * (1 + abs(lo))) or (hi is not None and v > hi + 1e-9 * (1 + abs(hi))):
+            self.assume_failed.append((f'{name} in [{lo}, {hi}]', v))
+        return v
 
     def vec(self, name, n, lo=None, hi=None):
         els = [self.real(f"{name}{i}", lo, hi) for i in range(n)]
@@ -199,7 +202,7 @@ class H:
         if hi is not None:
             rh = min(rh, hi)
         if self.sym:
-            x = trig.new_angle(name, rng, unit)
+            x = trig.new_angle(name, rng, unit, lo=lo, hi=hi)
             x.fv = core.SAMPLE_RNG.uniform(rl, rh, core.K_SAMPLES) * (1.0 if unit == 'rad' else math.pi / 180.0)
             if unit != 'rad':
                 x.fv = x.fv * (180.0 / math.pi)
@@ -210,7 +213,11 @@ class H:
             if hi is not None:
                 CTX.domain.append(x.t <= lift(hi))
             return x
-        return self._value(name, lambda r: r.uniform(rl + 1e-3 * (rh - rl), rh - 1e-3 * (rh - rl)))
+        v = self._value(name, lambda r: r.uniform(rl + 1e-3 * (rh - rl), rh - 1e-3 * (rh - rl)))
+        eps = 1e-9 * (1 if unit == 'rad' else 180 / math.pi)
+        if not (rl - eps <= v <= rh + eps):
+            self.assume_failed.append((f'angle {name} in [{rl}, {rh}]', v))
+        return v
 
     def const(self, x):
         return x
